@@ -36,6 +36,8 @@ function plan (seed, run, tier) {
   if (cfgs.length === 2 && rng.chance(1, 3)) cfgs[1].chainSourceMap = !chain
   const lateRewriter = cfgs.length === 2 && rng.chance(1, 2)
   const anyChain = cfgs.some(c => c.chainSourceMap)
+  // the wrapper's logger option: any object is a valid logger (levels it has no function for are skipped)
+  const loggerKinds = cfgs.map(() => rng.pick(['none', 'none', 'none', 'error-only', 'debug-throws', 'empty', 'full', 'level-only']))
   // the F6 scenario (message line starting with `at`) is confined to a quarter of the runs
   const allowMsgAt = run % 4 === 3
   const files = []
@@ -47,7 +49,7 @@ function plan (seed, run, tier) {
     for (let vi = 0; vi < nVer; vi++) {
       const kind = ['mod', 'mod', 'mod', 'mod', 'plain', 'plain', 'syntaxerr'][rng.below(7)]
       const omap = anyChain && rng.chance(2, 3) ? rng.pick(['inline', 'external']) : null
-      versions.push(genVersion(rng, fi, vi, kind, { file, omap, allowMsgAt, lookalikeLine: rng.chance(1, 5) }))
+      versions.push(genVersion(rng, fi, vi, kind, { file, omap, allowMsgAt, lookalikeLine: rng.chance(1, 5), bulk: run % 16 === 9 && fi === 0 && vi === 0 }))
     }
     files.push({ path: file, versions })
   }
@@ -99,12 +101,14 @@ function plan (seed, run, tier) {
     else if (k === 4) { const lf = rng.below(lookups.length); ops.push({ op: 'Lookup', lf, line: rng.chance(1, 12) ? 0 : rng.range(1, 14), col: rng.chance(1, 6) ? null : rng.range(1, 25) }) } else if (k === 5) { const lf = rng.below(lookups.length); ops.push({ op: 'FsMutate', lf, to: rng.below(lookups[lf].variants.length) }) } else if (k === 6) ops.push({ op: 'Burst', n: rng.pick([5, 50, 1001, 1100]) })
     else if (k === 7) ops.push({ op: 'FsFault', faults: [rng.pick([{ op: 'existsSync', kind: 'false' }, { op: 'existsSync', kind: 'true' }, { op: 'existsSync', kind: 'throw' }, { op: 'readFileSync', kind: 'ENOENT' }, { op: 'readFileSync', kind: 'EACCES' }, { op: 'readFileSync', kind: 'EISDIR' }, { op: 'readFileSync', kind: 'truncate' }, { op: 'readFileSync', kind: 'garbage' }])] })
     else ops.push({ op: 'NonCacheRewrite', f, v: rng.below(files[f].versions.length) })
+    // the event loop turns (anything deferred with setImmediate / a resolved promise runs now)
+    if (rng.chance(1, 10)) ops.push({ op: 'Tick' })
     // rarely: more than a thousand other files are rewritten through the caching rewriter
     if (run % 40 === 7 && i === (nOps >> 1)) ops.push({ op: 'RewriteBurst', n: 1001 })
   }
   // the rewriter's logger may be on for the whole run (process-wide level on the Rust side)
   const logLevel = rng.pick(['off', 'off', 'off', 'debug', 'trace'])
-  return { cfgs, files, lookups, ops, logLevel, lateRewriter, tag: allowMsgAt ? 'msg-at-allowed' : '' }
+  return { cfgs, files, lookups, ops, logLevel, lateRewriter, loggerKinds, tag: allowMsgAt ? 'msg-at-allowed' : '' }
 }
 
 function fsFor (plan, file, code) {
@@ -140,7 +144,7 @@ function jobs (plan) {
 
 function simFile (plan, name) { return plan.files.find(f => f.path === name) }
 
-function execute (plan, table) {
+async function execute (plan, table) {
   const wantLog = !!process.env.VERIF_LOG
   const log = []
   const rep = { events: 0, logDigest: 0, violations: [], notes: [], stats: {}, shapes: [], cells: [] }
@@ -190,7 +194,15 @@ function execute (plan, table) {
   let fragileInstalled = false
   const mkFragile = (tag) => { const base = mkUser(tag); return function fragilePST (err, callSites) { err.message.trim(); return base(err, callSites) } }
   // the second instance may be constructed only when it is first used (after the first one has rewritten files)
-  const rewriters = plan.cfgs.map((c, i) => (plan.lateRewriter && i > 0) ? null : new pkg.Rewriter(c))
+  const withLogger = (c, i) => {
+    const kind = (plan.loggerKinds || [])[i] || 'none'
+    if (kind === 'none') return c
+    const sink = () => {}
+    const logger = kind === 'error-only' ? { error: sink } : kind === 'debug-throws' ? { error: sink, debug () { throw new Error('logger.debug failed') }, info () { throw new Error('logger.info failed') } } : kind === 'empty' ? {} : kind === 'full' ? { error: sink, warn: sink, info: sink, debug: sink, trace: sink } : undefined
+    st('probe:rewriter-with-logger-option')
+    return Object.assign({}, c, logger ? { logger, logLevel: 'DEBUG' } : { logLevel: 'DEBUG', logger: { error: sink } })
+  }
+  const rewriters = plan.cfgs.map((c, i) => (plan.lateRewriter && i > 0) ? null : new pkg.Rewriter(withLogger(c, i)))
   const nonCache = new pkg.NonCacheRewriter(plan.cfgs[0])
   const L = {} // file -> {id, v, status, content, rw}
   const everModified = {} // file -> true once a modified rewrite was cached
@@ -322,12 +334,13 @@ function execute (plan, table) {
 
   for (const op of plan.ops) {
     rep.events++
+    if (op.op === 'Tick') { await new Promise((resolve) => setImmediate(resolve)); st('fault:event-loop-turn'); hist.push(['Tick', 0, '-']); seq++; continue }
     try {
       if (op.op === 'Rewrite' || op.op === 'NonCacheRewrite') {
         const f = plan.files[op.f]; const ver = f && f.versions[op.v]
         if (!f || !ver) { seq++; continue }
         const cache = op.op === 'Rewrite'
-        if (cache && plan.lateRewriter && plan.cfgs[op.rw] && !rewriters[op.rw]) { rewriters[op.rw] = new pkg.Rewriter(plan.cfgs[op.rw]); st('probe:rewriter-constructed-after-files-were-rewritten', rewriteId > 0 ? 1 : 0) }
+        if (cache && plan.lateRewriter && plan.cfgs[op.rw] && !rewriters[op.rw]) { rewriters[op.rw] = new pkg.Rewriter(withLogger(plan.cfgs[op.rw], op.rw)); st('probe:rewriter-constructed-after-files-were-rewritten', rewriteId > 0 ? 1 : 0) }
         const rw = cache ? rewriters[op.rw] || rewriters[0] : nonCache
         const rwIdx = cache ? (rewriters[op.rw] ? op.rw : 0) : 0
         let resp = null; let status = 'failed'
